@@ -291,22 +291,33 @@ def check_canon_cycles(facts, rep):
         rep.violation('E12.P3-canon-cycles', inst, 'Color::other is %s' % sorted(rr), where=oth.where())
     start = None
     step = set()
+    base_cl = None
+
+    def norm(x):
+        x = re.sub(r'loop\w+_\d+', 'COLORS', x)
+        x = re.sub(r'remove\(IT, 0\)|pop_front\(IT\)\.Some\.0|pop\(IT\)\.Some\.0', 'DEQ', x)
+        x = re.sub(r'unwrap\(find_position\(IT, closure<[^>]*>\)\)\.0|unwrap\(position\(IT, closure<[^>]*>\)\)', 'START', x)
+        return x
+    from symex import apply_closure, strip
     for p in SymEx(col, havoc_loops=True, max_paths=20000).run():
         for e in p.events:
             if e.kind == 'write' and e.lv:
                 lv = dk(('mref', e.lv))
-                if 'index_mut(IT, unwrap(find_position(IT, closure<{closure#0}>)).0)' in lv:
+                m = re.search(r'index_mut\(IT, (unwrap\(find_position\(IT, closure<[^>]*>\)\)\.0|unwrap\(position\(IT, closure<[^>]*>\)\))\)', lv)
+                if m:
                     start = dk(e.term)
                 elif 'index_mut(IT, next(IT).Some.0)' in lv:
-                    step.add(re.sub(r'loop\d+_\d+', 'COLORS', dk(e.term)))
-    base_cl = None
-    for k, b in facts.bodies.items():
-        if k.endswith('colored_seifert_circles::{closure#0}'):
-            base_cl = [dk(p.ret) for p in SymEx(b).run() if p.end == 'return']
+                    step.add(norm(dk(e.term)))
+        for e in p.calls():
+            if e.name.split('::')[-1] in ('find_position', 'position') and len(e.args) == 2 and strip(e.args[1])[0] == 'closure':
+                rr = sorted({dk(q.ret).replace("('item',)", 'ITEM') for q in apply_closure(e.args[1], [('item',)]) or [] if q.end == 'return'})
+                if rr and 'contains(' in rr[0]:
+                    base_cl = [re.sub(r'\(\(ITEM\)\)|\(ITEM\)', '(ITEM)', x).replace('arg1.^base', 'BASE').replace('arg3', 'BASE') for x in rr]
     inst = 'colored_seifert_circles|base circle A, neighbours get the other colour'
-    if start == 'Color::A{}' and step == {'other(index(COLORS, remove(IT, 0)))'} and base_cl == ['contains(deref(edges(arg2)), arg1.^base)']:
+    base_ok = base_cl is not None and len(base_cl) == 1 and re.match(r'contains\(deref\(edges\(ITEM\)\), (BASE|arg2)\)$', base_cl[0]) is not None
+    if start == 'Color::A{}' and step == {'other(index(COLORS, DEQ))'} and base_ok:
         rep.ok('E12.P3-canon-cycles', inst, 'colors[i2] = colors[i1].other(); start = circle containing the base point')
-    elif step and all(s.startswith(('other(', 'index(', 'Color::')) for s in step) and step != {'other(index(COLORS, remove(IT, 0)))'}:
+    elif step and all(re.match(r'(other\()?(index\(COLORS, (DEQ|START|next\(IT\)\.Some\.0)\)|Color::[AB]\{\})\)?$', s_) for s_ in step) and step != {'other(index(COLORS, DEQ))'}:
         rep.violation('E12.P3-canon-cycles', inst, 'a newly reached Seifert circle is coloured %s instead of other(colour of the circle it was reached from)' % sorted(step), where=col.where())
     else:
         rep.indet('E12.P3: colouring outside the recognised fragment: start %s, step %s, base %s' % (start, sorted(step), base_cl))
